@@ -357,7 +357,9 @@ impl Serialize for AnnotationDataSet {
             } else if let Ok(id) = self.temp_id() {
                 state.serialize_field("@id", id.as_str())?;
             }
-            state.serialize_field("keys", &self.keys)?;
+            //the slot of a removed key is not written (it would be a null, which the parser rejects)
+            let keys: Vec<&DataKey> = self.keys.iter().flatten().collect();
+            state.serialize_field("keys", &keys)?;
             let wrappedstore: WrappedStore<AnnotationData, Self> = self.wrap_store(None);
             state.serialize_field("data", &wrappedstore)?;
         }
